@@ -18,6 +18,17 @@ Proof.
   unfold raw_params_fch1, src_raw_params_fch1, zq. rewrite inject_Z_minus'. change (inject_Z 1) with 1. change (inject_Z 2) with 2. first [reflexivity | ring | field].
 Qed.
 
+(* the four header cards the reader-side formula uses, field by field *)
+Theorem k07_header fch1 cbw start_chan nchans nants sr nb :
+  let h := header fch1 cbw start_chan nchans nants sr nb in
+  OBSFREQ h == src_hdr_obsfreq fch1 cbw start_chan nchans /\ CHAN_BW h == src_hdr_chan_bw cbw /\
+  OBSBW h == src_hdr_obsbw cbw nchans /\ OBSNCHAN h = src_hdr_obsnchan nchans nants.
+Proof.
+  cbn zeta. unfold header, src_hdr_obsfreq, src_hdr_chan_bw, src_hdr_obsbw, src_hdr_obsnchan, mhz, zq. cbn [OBSFREQ CHAN_BW OBSBW OBSNCHAN].
+  rewrite inject_Z_minus'. change (inject_Z 1) with 1. change (inject_Z 2) with 2.
+  split; [first [reflexivity | ring | field]|]. split; [first [reflexivity | ring]|]. split; [first [reflexivity | ring]|reflexivity].
+Qed.
+
 Theorem k07_all fch1 cbw start_chan nchans nants sr nb h :
   OBSFREQ (header fch1 cbw start_chan nchans nants sr nb) == src_center_freq fch1 cbw start_chan nchans * mhz /\
   raw_params_fch1 h start_chan nchans == src_raw_params_fch1 (OBSFREQ h / mhz) (CHAN_BW h / mhz) start_chan nchans.
